@@ -19,3 +19,59 @@ package chord
 //@   ensures range: r < 1<<48
 //@   ensures sum: (r - ((x & (1<<48 - 1)) + (y & (1<<48 - 1)))) & (1<<48 - 1) == 0
 //@   ensures exact: (x < 1<<48 && y < 1<<48) ==> (x + y < 1<<48 ? r == x + y : r == x + y - 1<<48)
+
+// ---- C12: successor lists
+
+//@ pure VNode.ID
+//@ pure VNode.Identity
+//@ pure (*go.miragespace.co/specter/spec/protocol.Node).GetAddress
+
+//@ func MakeSuccListByID(immediate VNode, successors []VNode, maxLen int) (r []VNode)
+//@   requires immediate != nil && maxLen >= 1
+//@   ghost src gmap[int]int
+//@   ensures first: len(r) >= 1 && r[0] == immediate
+//@   ensures maxlen: len(r) <= maxLen
+//@   ensures nonnil: forall i int :: 0 <= i && i < len(r) ==> r[i] != nil
+//@   ensures nodup: forall i, j int :: 0 <= i && i < j && j < len(r) ==> r[i].ID() != r[j].ID()
+//@   ensures from-input: forall a int :: 1 <= a && a < len(r) ==> 0 <= src[a] && src[a] < len(successors) && r[a] == successors[src[a]]
+//@   ensures order: forall a, b int :: 1 <= a && a < b && b < len(r) ==> src[a] < src[b]
+//@   ensures input-unchanged: unchanged(successors)
+//@   at call append#1: ghost src[len(succList)] := rangeindex
+//@   loop succ: invariant bounds: -1 <= rangeindex && rangeindex < len(successors) && len(succList) >= 1 && len(succList) <= maxLen
+//@   loop succ: invariant own: fresh(succList) && fresh(seen) && unchanged(successors)
+//@   loop succ: invariant head: succList[0] == immediate
+//@   loop succ: invariant nonnil: forall i int :: 0 <= i && i < len(succList) ==> succList[i] != nil
+//@   loop succ: invariant seen: forall i int :: 0 <= i && i < len(succList) ==> seen[succList[i].ID()]
+//@   loop succ: invariant nodup: forall i, j int :: 0 <= i && i < j && j < len(succList) ==> succList[i].ID() != succList[j].ID()
+//@   loop succ: invariant src: forall a int :: 1 <= a && a < len(succList) ==> 0 <= src[a] && src[a] <= rangeindex && succList[a] == successors[src[a]]
+//@   loop succ: invariant mono: forall a, b int :: 1 <= a && a < b && b < len(succList) ==> src[a] < src[b]
+
+//@ spec addrOf(v VNode) string = v.Identity().GetAddress()
+
+//@ func MakeSuccListByAddress(immediate VNode, successors []VNode, maxLen int) (r []VNode)
+//@   requires immediate != nil && maxLen >= 1
+//@   ghost src gmap[int]int
+//@   ensures first: len(r) >= 1 && r[0] == immediate
+//@   ensures maxlen: len(r) <= maxLen
+//@   ensures nonnil: forall i int :: 0 <= i && i < len(r) ==> r[i] != nil
+//@   ensures nodup: forall i, j int :: 0 <= i && i < j && j < len(r) ==> addrOf(r[i]) != addrOf(r[j])
+//@   ensures from-input: forall a int :: 1 <= a && a < len(r) ==> 0 <= src[a] && src[a] < len(successors) && r[a] == successors[src[a]]
+//@   ensures order: forall a, b int :: 1 <= a && a < b && b < len(r) ==> src[a] < src[b]
+//@   ensures input-unchanged: unchanged(successors)
+//@   at call append#1: ghost src[len(succList)] := rangeindex
+//@   loop succ: invariant bounds: -1 <= rangeindex && rangeindex < len(successors) && len(succList) >= 1 && len(succList) <= maxLen
+//@   loop succ: invariant own: fresh(succList) && fresh(seen) && unchanged(successors)
+//@   loop succ: invariant head: succList[0] == immediate
+//@   loop succ: invariant nonnil: forall i int :: 0 <= i && i < len(succList) ==> succList[i] != nil
+//@   loop succ: invariant seen: forall i int :: 0 <= i && i < len(succList) ==> seen[addrOf(succList[i])]
+//@   loop succ: invariant nodup: forall i, j int :: 0 <= i && i < j && j < len(succList) ==> addrOf(succList[i]) != addrOf(succList[j])
+//@   loop succ: invariant src: forall a int :: 1 <= a && a < len(succList) ==> 0 <= src[a] && src[a] <= rangeindex && succList[a] == successors[src[a]]
+//@   loop succ: invariant mono: forall a, b int :: 1 <= a && a < b && b < len(succList) ==> src[a] < src[b]
+
+//@ func Hash(b []byte) (r uint64)
+//@   arith bv
+//@   ensures range: r < 1<<48
+
+//@ func Random() (r uint64)
+//@   arith bv
+//@   ensures range: r < 1<<48
